@@ -71,13 +71,18 @@ def one(ctx, rng, xr, utils):
         th = float(rng.integers(0, short + 1)) * s_ + s_ * np.arange(n_)
         dd = s_
         conv = "short%d" % short
+    u_ = rng.random()
+    if u_ < 0.08:
+        # one or two directions (a single-direction record, a two-bin sector): still a frequency-direction grid
+        th = np.array([float(rng.uniform(0, 360))]) if u_ < 0.05 else np.sort(rng.choice(np.arange(0, 360, 15.0), 2, replace=False))
+        full, conv, dd = False, "few", 15.0
     nd = len(th)
     lnames, lsizes = gen.lead_dims(rng, nlead=int(rng.choice([0, 0, 1, 2])), maxsize=3)
     cls = str(rng.choice(["noise", "multimodal", "plateau", "single_bin", "constant", "zeros"]))
     A, _ = gen.stack_spectra(rng, f, th, lsizes, cls=cls, distinct=False)
     dt = str(rng.choice(["float64", "float32"]))
     x = gen.make_da(A, f, th, lnames, lsizes, dtype=dt)
-    stored = str(rng.choice(["sorted", "rolled", "reversed", "shuffled"]))
+    stored = str(rng.choice(["sorted", "rolled", "reversed", "shuffled"])) if nd > 1 else "sorted"
     if stored == "rolled":
         x = x.roll(dir=int(rng.integers(1, nd)), roll_coords=True)
     elif stored == "reversed":
